@@ -102,7 +102,10 @@ AnswerStep(p, r, dst, o, qi) ==
     ELSE LET qs == qi[1]
              qe == qi[2]
              nlen == qe - qs
-             ptr == o + 2 <= Len(r) /\ r[o + 1] \div 64 = 3 /\ ((r[o + 1] % 64) * 256 + r[o + 2]) = qs
+             tgt == IF o + 2 <= Len(r) /\ r[o + 1] \div 64 = 3 THEN (r[o + 1] % 64) * 256 + r[o + 2] ELSE -1
+             (* a compression pointer to this question's name - or to the same name in another question *)
+             ptr == tgt # -1 /\ (tgt = qs \/ (tgt >= 12 /\ tgt + nlen <= Len(p) /\ tgt < qs
+                                                /\ SubSeq(p, tgt + 1, tgt + nlen) = SubSeq(p, qs + 1, qe)))
              same == o + nlen <= Len(r) /\ SubSeq(r, o + 1, o + nlen) = SubSeq(p, qs + 1, qe)
              ne == IF same THEN o + nlen ELSE IF ptr THEN o + 2 ELSE -1
          IN IF ne = -1 \/ ne + 10 + 4 > Len(r) THEN -1
